@@ -105,6 +105,21 @@ theorem eo_removeElementReq (x : Ctx) (p : Peer) (req : Json) (h : EO x.st) :
   repeat' (first | split | dsimp only)
   all_goals (first | exact h | exact eo_removeElement _ _ h)
 
+theorem eo_offer_step (cfg : Config) (y : Ctx) (oc : Nat) (e : Element) (fp : Peer) (f : Fetch)
+    (hy : EO y.st) (heo : e.owner = oc) :
+    EO ({ (offerElement cfg y e fp f).1 with st := { (offerElement cfg y e fp f).1.st with
+      peers := updatePeer (offerElement cfg y e fp f).1.st.peers oc (fun q =>
+        { q with elements := q.elements.map (fun el =>
+          if el.path == (offerElement cfg y e fp f).2.path then (offerElement cfg y e fp f).2 else el) }) } } : Ctx).st := by
+  simp only [offerElement_st]
+  apply eo_updatePeer hy
+  intro q _ hqc hq e' he'
+  obtain ⟨el, hel, rfl⟩ := List.mem_map.mp he'
+  show Element.owner (if _ then _ else _) = q.conn
+  split
+  · rw [offerElement_owner, heo, hqc]
+  · exact hq el hel
+
 theorem eo_offerAllElements (cfg : Config) (x : Ctx) (fp : Peer) (f : Fetch) (h : EO x.st) :
     EO (offerAllElements cfg x fp f).st := by
   unfold offerAllElements
@@ -115,18 +130,12 @@ theorem eo_offerAllElements (cfg : Config) (x : Ctx) (fp : Peer) (f : Fetch) (h 
     · exact hy
     · intro y' e0 he0 hy'
       dsimp only
-      simp only [offerElement_st]
-      apply eo_updatePeer hy'
-      intro q _ hqc hq e' he'
-      obtain ⟨el, hel, rfl⟩ := List.mem_map.mp he'
+      apply eo_offer_step cfg y' owner.conn _ fp f hy'
       split
-      · rw [offerElement_owner, hqc]
-        split
-        · next e hfind =>
-          obtain ⟨q', hq', hfe⟩ := Option.bind_eq_some_iff.mp hfind
-          rw [hy' q' (findPeer_mem hq') e (List.mem_of_find?_eq_some hfe), findPeer_conn hq']
-        · exact h owner hown e0 he0
-      · exact hq el hel
+      · next e hfind =>
+        obtain ⟨q', hq', hfe⟩ := Option.bind_eq_some_iff.mp hfind
+        rw [hy' q' (findPeer_mem hq') e (List.mem_of_find?_eq_some hfe), findPeer_conn hq']
+      · exact h owner hown e0 he0
 
 theorem eo_fetchReq (cfg : Config) (x : Ctx) (p : Peer) (req : Json) (h : EO x.st) :
     EO (fetchReq cfg x p req).1.st := by
@@ -179,7 +188,7 @@ theorem eo_routeCore (cfg : Config) (x : Ctx) (p : Peer) (req : Json) (isState :
     | (simp only [send_st, stored, emit_st]
        exact eo_updatePeer h (fun q _ _ hq => hq))
     | (simp only [emit_st, send_st, stored]
-       exact eo_removeRoute (eo_updatePeer h (fun q _ _ hq => hq)))
+       exact eo_removeRoute (eo_updatePeer h (fun _ _ _ hq => hq)))
 
 theorem eo_setOrCall (cfg : Config) (x : Ctx) (p : Peer) (req : Json) (isState : Bool) (h : EO x.st) :
     EO (setOrCall cfg x p req isState).1.st := by
@@ -248,12 +257,16 @@ theorem eo_handleMethod (cfg : Config) (x : Ctx) (p : Peer) (req : Json) (m : By
 theorem eo_parseJsonRpc (cfg : Config) (x : Ctx) (c : Nat) (req : Json) (h : EO x.st) :
     EO (parseJsonRpc cfg x c req).1.st := by
   unfold parseJsonRpc
-  repeat' (first | split | dsimp only)
-  all_goals first
-    | exact h
-    | exact eo_sendResponse _ _ _ (eo_handleMethod _ _ _ _ _ h)
-    | exact eo_sendResponse _ _ _ h
-    | exact eo_routingResponse _ _ _ _ _ h
+  split
+  · exact h
+  · split
+    · exact eo_sendResponse _ _ _ (eo_handleMethod _ _ _ _ _ h)
+    · exact eo_sendResponse _ _ _ h
+    · split
+      · exact eo_routingResponse _ _ _ _ _ h
+      · split
+        · exact eo_routingResponse _ _ _ _ _ h
+        · exact eo_sendResponse _ _ _ h
 
 theorem eo_parseJsonArray (cfg : Config) (c : Nat) (l : List Json) (x : Ctx) (h : EO x.st) :
     EO (parseJsonArray cfg x c l).1.st := by
